@@ -142,6 +142,27 @@ def run(prop, tier, seed, unit_results):
             res['violations'].append({'unit': 'purity-scan', 'label': 'C18.scan-' + re.sub(r'[^A-Za-z0-9]+', '-', what)[:40].strip('-'),
                                       'failure': {'message': 'purity scan: %s at %s:%d' % (what, f, ln), 'blocks': [], 'labels': [], 'where': ['%s:%d' % (f, ln)], 'props': ['C18']},
                                       'witness': {'kind': 'source location', 'file': f, 'line': ln, 'what': what}})
+    # Kani leaf harnesses (thorough tier): loop-free, full-domain => complete proofs; a failure carries a concrete counterexample
+    if tier == 'thorough' and prop in ('C03', 'C14') and os.environ.get('VERIF_KANI') != '0':
+        try:
+            import kani_run
+            names = [h for h, p_ in kani_run.HARNESSES.items() if p_ == prop]
+            kr = kani_run.run(names)
+            res['report']['kani'] = kr
+            res['back_end'] += ' + kani 0.68 / cbmc 6.11 (leaf harnesses)'
+            for h, info in kr['harnesses'].items():
+                if info['result'] == 'SUCCESSFUL':
+                    res['obligations'] += info.get('checks') or 1
+                    res['discharged'] += info.get('checks') or 1
+                    res['samples'].append({'unit': 'kani', 'obligation': h, 'clause': 'cargo kani --harness %s: %s checks, full symbolic domain, no loops' % (h, info.get('checks')), 'function': h})
+                elif info['result'] == 'FAILED':
+                    res['violations'].append({'unit': 'kani', 'label': '%s.kani-%s' % (prop, h),
+                                              'failure': {'message': 'Kani harness %s FAILED: %s' % (h, '; '.join(info.get('failed_checks') or [])), 'blocks': [], 'labels': [], 'where': [h], 'props': [prop]},
+                                              'witness': {'kind': 'kani counterexample (failed check)', 'harness': h, 'failed_checks': info.get('failed_checks'), 'replay_cmd': 'python3 vtool/kani_run.py ' + h}})
+                else:
+                    res['report'].setdefault('kani_notes', []).append('%s: %s (not deciding)' % (h, info['result']))
+        except Exception as e:  # a tool problem is never an alarm
+            res['report']['kani'] = {'error': str(e)[:300]}
     # witness search: always run (quick: the fixed seed 1, thorough: the given seed as well, more cases)
     undec = any(u['undecided'] for u in unit_results)
     try:
